@@ -373,7 +373,7 @@ def build_instances(case):
       top.elaborate()
       return top
     return make
-  if fam == "ifcgen":
+  if fam in ("ifcgen", "paramgen"):
     src = case["src"]
   else:
     src = PROBES[case["name"]].format(uid=case["uid"])
@@ -399,6 +399,12 @@ def gen_case(R, tier, backend, profile="translatable"):
     from ..gen import ifcrtl
     src, gst = ifcrtl.gen(c, base["uid"])
     base.update(family="ifcgen", name="ifcgen", src=src, gen_stats=gst, ncycles=inp.randint(6, 14), resets=[])
+  elif r < 0.16:
+    # several instances of parametrised classes at colliding / defaulted / keyword / set_param values
+    # (the designs C13 uses for aliasing): a shared module body shows up here as a wrong output
+    from . import c13
+    base.update(family="paramgen", name="paramgen", src=c13.gen_param_design(c, base["uid"]),
+                ncycles=inp.randint(6, 14), resets=[])
   elif r < 0.62:
     spec = designgen.DesignGen(c, profile, uid=base["uid"]).gen()
     base.update(family="random", spec=spec, ncycles=inp.randint(8, 24),
